@@ -59,6 +59,9 @@ func c15Run(c *ev.Ctx) {
 	if r.Chance(1, 8) {
 		blockSize = []uint64{256, 1024, 16384}[r.Intn(3)]
 	}
+	if c.Index%8 == 3 {
+		blockSize = []uint64{16384, 65536}[r.Intn(2)] // plan 5 below
+	}
 	fh := structures.NewWritableFractalHeap(blockSize)
 	sb := testSB()
 	// overhead of a direct block on disk: signature 4 + version 1 + heap header address
@@ -68,6 +71,14 @@ func c15Run(c *ev.Ctx) {
 
 	// fill plan
 	plan := []int{0, 0, 1, 1, 1, 2, 2, 2, 3, 4}[r.Intn(10)] // 0 small, 1 approach usable±k, 2 exactly one block, 3 beyond one block, 4 random big objects
+	// plan 5 (one case in eight): objects that end at a chosen distance from the 512-byte and
+	// 4 KiB boundaries inside a large block; the distance (-40..+23 bytes) is enumerated over
+	// the cases, so that every alignment of an object's last byte around a boundary occurs
+	alignEdge := 0
+	if c.Index%8 == 3 {
+		plan = 5
+		alignEdge = (c.Index/8)%64 - 40
+	}
 	nops := r.Range(1, c.Pick(120, 400))
 	var hist []c15Op
 	live := map[string]*c15Obj{}
@@ -184,6 +195,7 @@ func c15Run(c *ev.Ctx) {
 		return true
 	}
 
+	alignedInsert := false
 	overshoot := r.Chance(1, 4) // plans 0-2: one quarter of the histories may leave the first block
 	nextSize := func() int {
 		free := int64(usable) - int64(maxEnd)
@@ -199,6 +211,19 @@ func c15Run(c *ev.Ctx) {
 			return int(free) + r.Range(1, 4)
 		}
 		switch plan {
+		case 5:
+			// the object ends (first byte behind it) at alignEdge bytes past the next 512-byte or
+			// 4 KiB boundary of the block offsets; small objects in between
+			if r.Chance(1, 3) {
+				return clamp(r.Range(1, 40))
+			}
+			unit := uint64([]int{512, 4096}[r.Intn(2)])
+			target := (maxEnd/unit+1)*unit + uint64(int64(unit)+int64(alignEdge))%unit
+			for target <= maxEnd {
+				target += unit
+			}
+			alignedInsert = true
+			return clamp(int(target - maxEnd))
 		case 0:
 			return clamp(r.Range(1, 64))
 		case 1:
@@ -240,6 +265,11 @@ func c15Run(c *ev.Ctx) {
 			w = []int{3, 0, 0, 0, 1}
 		}
 		kindOp := r.Weighted(w)
+		if plan == 5 && (step == 0 || alignedInsert) {
+			// plan 5 works on a heap that was loaded from a file, and every object placed at an
+			// alignment edge is written back in place and loaded again at once
+			kindOp, alignedInsert = 4, false
+		}
 		if len(live) > 0 && len(live) <= 8 && fh.RootIndirectBlock == nil && r.Chance(1, 12) {
 			// drain: delete everything, so that the next save is that of an emptied heap
 			for len(order) > 0 {
@@ -349,7 +379,7 @@ func c15Run(c *ev.Ctx) {
 			order = append(order[:i], order[i+1:]...)
 			liveBytes -= o.len
 		case 4: // write out + load back
-			if backing != nil && r.Bool() {
+			if backing != nil && (r.Bool() || plan == 5) {
 				// the heap was loaded from a file: write it back in place (the modify path of an
 				// open-modify-close session), load it again and go on with the loaded copy
 				hist = append(hist, c15Op{Op: "writeat+load"})
@@ -418,7 +448,7 @@ func c15Run(c *ev.Ctx) {
 			if !checkAll(nh, "persist:loaded") {
 				return
 			}
-			if r.Bool() {
+			if r.Bool() || plan == 5 {
 				fh = nh
 				reloaded = true
 				backing, backingAddr = mf, addr
